@@ -109,7 +109,7 @@ class ExprGen:
             f"{x} ^ 1", f"~{x}", f"[1] @ [2]", f"__import__('os')", f"x + 1", f"open('/etc/passwd')",
             f"eval('1+1')", f"getattr(1, 'real')", f"abs.__self__", f"(yield {x})", f"(await {x})",
             f"().__class__.__bases__[0].__subclasses__()", f"(1).bit_length()", f"math.sqrt(4)", f"print(1)",
-            f"abs(1)(2)", f"(abs)(3)", f"pi(1, 2)", f"len", f"exec('1')", f"b'ab'", f"...", f"1j", f"None",
+            f"abs(1)(2)", f"(abs)(3)", f"pi(1, 2)", f"e()", f"tau(x=1)", f"len", f"exec('1')", f"b'ab'", f"...", f"1j", f"None",
         ])
 
     def malformed(self):
